@@ -684,6 +684,7 @@ class Sortedmulti(Multi):
 class MultiA(Multi):
     # <key1> CHECKSIG <key2> CHECKSIGADD ... <keyN> CHECKSIGNADD <k> NUMEQUAL
     NAME = "multi_a"
+    PROPS = "du"  # unlike multi, a satisfaction can start with an empty signature: no "n"
     _expected_taproot = True
     MAX_KEYS = 999  # CHECKSIGADD chain: at most 999 keys
 
